@@ -50,6 +50,7 @@ inductive Err where
   | rejected (r : Reject)
   | storage (k : Nat)      -- the k-th storage call of the batch failed
   | index                  -- index construction / index-side processing failed
+  | commit (k : Nat)       -- all k storage calls succeeded and the closure returned nil, then the COMMIT of the write transaction failed
   deriving Repr, DecidableEq, Inhabited
 
 /-- abstract content of a shared cache -/
@@ -113,10 +114,18 @@ def exec (fault : Option Nat) : Prog → Tx → Tx × Option Err
 
 def startTx (s : Shard) (d : Disk) : Tx := { disk := d, caches := s.caches, written := [], n := 0 }
 
-/-- the body handed to `db.Write`: the error of the program is the error of the closure -/
+/-- the closure handed to `db.Write` returned nil (every step of the program succeeded) -/
+def closureOk (s : Shard) (prog : Prog) (fault : Option Nat) : Bool :=
+  (exec fault prog (startTx s s.disk)).2.isNone
+
+/-- what `db.Write(closure)` does with the uncommitted disk, as its caller sees it: the error of the
+program is the error of the closure; and when the closure returned nil the COMMIT STEP ITSELF may
+fail — fault position = number of storage calls the closure issued, i.e. "after the last one" (full
+disk, I/O error while the pages / the meta page are written): the storage rolls everything back and
+`Write` returns an error although the closure succeeded. -/
 def txBody (s : Shard) (prog : Prog) (fault : Option Nat) (d : Disk) : Except Err Disk :=
   match exec fault prog (startTx s d) with
-  | (t, none) => .ok t.disk
+  | (t, none) => if fault = some t.n then .error (.commit t.n) else .ok t.disk
   | (_, some e) => .error e
 
 /-- caches write-locked by the batch when its closure returns -/
@@ -124,12 +133,24 @@ def writtenBy (s : Shard) (prog : Prog) (fault : Option Nat) : List String :=
   (exec fault prog (startTx s s.disk)).1.written
 
 /-- InsertPoints / UpdatePoints / DeletePoints after their pre-checks:
-`cacheTx := NewTransaction(); err := db.Write(body); if err != nil { cacheTx.Commit(true); return err }; cacheTx.Commit(false)` -/
+`cacheTx := NewTransaction(); err := db.Write(body); if err != nil { cacheTx.Commit(true); return err }; cacheTx.Commit(false)`.
+The cache transaction is committed or aborted by THE ERROR OF `Write` (which covers a failing commit),
+not by how far the closure got. -/
 def runBatch (s : Shard) (prog : Prog) (fault : Option Nat) : Shard × Option Err :=
   let t := (exec fault prog (startTx s s.disk)).1
   match Disk.write s.disk (txBody s prog fault) with
   | (d', none) => ({ disk := d', caches := t.caches }, none)                           -- Commit(false)
   | (d', some e) => ({ disk := d', caches := dropCaches t.caches t.written }, some e)  -- Commit(true)
+
+/-- NOT the code: the variant that decides `Commit(fail)` from "did the closure reach its end" (a flag /
+time stamp set by the last statement of the closure, or `defer cacheTx.Commit(err != nil)` evaluated
+before `Write` ran) instead of from the error of `Write`.  It differs from `runBatch` exactly when the
+commit step fails; `C07_commit_by_closure_flag_witness` shows that it is not atomic. -/
+def runBatchByClosureFlag (s : Shard) (prog : Prog) (fault : Option Nat) : Shard × Option Err :=
+  let r := exec fault prog (startTx s s.disk)
+  let caches := if r.2.isNone then r.1.caches else dropCaches r.1.caches r.1.written
+  match Disk.write s.disk (txBody s prog fault) with
+  | (d', e) => ({ disk := d', caches := caches }, e)
 
 /-- a batch that is refused before the storage transaction starts (duplicate id inside an insert
 batch): no transaction, no cache transaction -/
